@@ -17,19 +17,19 @@ CHECKS = {
   "Breadth-first search over all histories of Stream/StreamTeeHub/tee operations (about 41 letters per stream handle, 11 per hub, up to 4 live handles) on six initial pools: unmerged to depth 3 (thorough 4), merged by (model state, wrapper signature) one level deeper. Every transition replays the history on fresh real objects, compares the result with an immutable-sequence model and then drains every live handle, so independence of copies / tee outputs / thub uses is checked under every interleaving of consumption.",
   "Depth bound; alphabet of counts {None,-1,0,1,2,2.4,2.6,5,inf}; handles the contract forbids reusing are dead; no exact .5 ties."),
  "C15": (True, "E2", "model_checking", E2,
-  "Closure search: breadth-first over every operation history of the real MultiKeyDict (5 keys x 4 values incl. 1 == 1.0, key tuples up to length 2; thorough 6 keys, tuples up to 3) and StrategyDict (4 names x 3 strategies; thorough 4 x 4) until no new canonical state appears, so every reachable state is visited and every operation applied from it; all observers and the three internal maps are compared with a reference model after each transition. The state count equals the closed-form number of reachable states.",
+  "Closure search: breadth-first over every operation history of the real MultiKeyDict (5 keys x 4 values incl. 1 == 1.0, key tuples up to length 2; thorough 6 keys, tuples up to 3) and StrategyDict (4 names x 3 strategies; thorough 4 x 4) until no new canonical state appears, so every reachable state is visited and every operation applied from it; all observers and the three internal maps are compared with a reference model after each transition. The state count equals the closed-form number of reachable states. The StrategyDict search is repeated with strategies that are equal but never identical objects, and small universes with key tuples of length 3.",
   "Small key/value universes (behaviour depends only on equality of keys/values); names do not shadow StrategyDict attributes."),
  "C16": (True, "E2", "model_checking", E2,
   "Merged breadth-first search over add/next/add(negative) histories of the real Streamix (tie-free delta alphabet, <=3 live events, depth 6; thorough 8) plus exhaustive unmerged programs (k<=3 events x 9 deltas x 3 lengths x every non-decreasing insertion point, exact ties accepted either way; thorough k<=4), long non-dyadic accumulations for drift, and all ControlStream assign/read words up to length 8 (thorough 10); oracle is the statement (cumulative start times), not the algorithm.",
   "Item values are opaque labels; adding after StopIteration is outside the contract; depth/size bounds."),
  "C04": (True, "E1", "exploration", E1 + "; symbolic (linear-form) samples decide all numeric inputs of a shape in one run",
-  "Every numerator/denominator coefficient vector of length <=3 (thorough <=4) over {0,1,-1,2,-3,0.5} with a0 in {1,-1,2,-0.5,Fraction(1,2)} is compiled by the real LinearFilter.__call__ and run on symbolic input, symbolic zero and symbolic memory (linear forms over Q, linearity checked not assumed) plus a concrete exact vector, and compared with the textbook recurrence; memory kinds x zero kinds x constructors x input lengths on a sub-alphabet; sparse high delays; negative delays must raise ValueError.",
+  "Every numerator/denominator coefficient vector of length <=3 (thorough <=4) over {0,1,-1,2,-3,0.5} with a0 in {1,-1,2,-0.5,Fraction(1,2)} is compiled by the real LinearFilter.__call__ and run on symbolic input, symbolic zero and symbolic memory (linear forms over Q, linearity checked not assumed) plus a concrete exact vector, and compared with the textbook recurrence; memory kinds x zero kinds x constructors x input lengths on a sub-alphabet; sparse high delays; negative delays must raise ValueError. Memories are given as list, longer list, generator, callable, Stream and Stream copy; coefficients within 1e-9 of 1 and two-digit delays are in the sparse set; the input sequence is handed over as list, tuple, Stream, iterator, generator and re-iterable object; a decoy filter of the same shape runs first in the same process.",
   "Coefficient alphabet and order bound; coefficients are plain numbers (they are embedded textually by the code generator)."),
  "C05": (True, "E1", "exploration", E1 + "; exact rational-function reference compared by cross-multiplication",
   "All ordered pairs of a 90-filter pool (thorough 400) under + - * / on symbolic input (composite output vs composition of outputs vs reference recurrence vs numpoly/denpoly by cross-multiplication), scalars/unary/powers/delays per filter, all triples of a sub-pool for Cascade/ParallelFilter and the field laws, all expression trees of depth <=2 over {+,-,*,/,**n,f(g)} against exact rational functions, ==/!=/hash on all pairs of (filter, construction route), fractional-delay linearisation.",
   "Pool/depth bounds; dyadic coefficients wherever a signal is run; == is structural equality."),
  "C06": (True, "E1", "exploration", E1 + " with counting sources on every coefficient stream",
-  "Every placement of {absent, constant, 1, finite stream (len 0/2/5), periodic stream, constant stream} on b0..b2 and a0..a2 (60k shapes quick, 230k thorough) built through the dict constructor and Stream*z**-k expressions, run on symbolic input and compared with the time-varying recurrence on coefficient sequences, output length = shortest of input and coefficient streams, each coefficient source read exactly k times after k outputs; sums/products/scalings (incl. one stream feeding several product terms) vs element-by-element sequence arithmetic; constant streams vs constants.",
+  "Every placement of {absent, constant, 1, finite stream (len 0/2/5), periodic stream, constant stream} on b0..b2 and a0..a2 (60k shapes quick, 230k thorough) built through the dict constructor and Stream*z**-k expressions, run on symbolic input and compared with the time-varying recurrence on coefficient sequences, output length = shortest of input and coefficient streams, each coefficient source read exactly k times after k outputs; sums/products/scalings (incl. one stream feeding several product terms) vs element-by-element sequence arithmetic; constant streams vs constants. Products and quotients whose numerator and denominator share a time-varying factor must not cancel it.",
   "Order <= 2; a Stream-bearing filter object is used once (copy() otherwise); degenerate 0/a0[n] shape excluded (see DESIGN.md)."),
  "C07": (True, "E1", "exploration", E1,
   "All ordered pairs of a pool of ~130 Laurent polynomials (thorough ~330; support -3..3, <=3 terms, coefficients in {1,-1,2,1/2,-3/2}, cancellation cases included) for + - *, commutativity, ==/!=/hash, evaluation homomorphism under all three schemes at 6 points, derivative linearity and product rule, composition; every polynomial alone for p-p, scalars, powers 0..3 (thorough 0..5), construction routes, order/values, diff/integrate; all triples of a sub-pool for associativity/distributivity; all 5460 Lagrange point sets (1..4 distinct abscissae) for both strategies. Exact Fractions throughout; no stored zero coefficient after any operation.",
@@ -41,22 +41,22 @@ CHECKS = {
   "All reflection vectors over {-1/2,-1/3,0,1/3,1/2,3/4}^p, p<=3 (thorough 4) x r0 x orders 0..p+2 and all data blocks of length <=5 (thorough 6) over {-1,0,1,2} x all orders are given to the real levinson_durbin / lpc.kautocor / lpc.kcovar with exact Q samples; the Yule-Walker / covariance residuals must be exactly zero, the error attribute must equal sum a_j r_j = r0*prod(1-k^2) = energy of the prediction residual, ParCorError iff a prediction error is zero; acorr/lag_matrix/toeplitz against their plain sums for every max_lag.",
   "Length/order bounds; kcovar's documented refusals are counted not failed; numpy strategies not exercised."),
  "C11": (True, "E1", "exploration", E1,
-  "All reflection vectors over {+-1/2,+-1/3,+-2,-3/2,0,+-1} with non-zero last entry (length <=3, thorough 4) x gains x three construction routes: parcor must return them last first (and raise ParCorError exactly at the first |k|=1), step-up of the result rebuilds the filter, levinson error = r0*prod(1-k^2); all multisets of 12 root factors (real roots 0,+-1/2,3/4,+-1,+-2 and conjugate pairs inside/on/outside the circle) up to degree 4 x 4 leading coefficients x 2 numerators for parcor_stable, whose answer is known by construction.",
+  "All reflection vectors over {+-1/2,+-1/3,+-2,-3/2,0,+-1} with non-zero last entry (length <=3, thorough 4) x gains x three construction routes: parcor must return them last first (and raise ParCorError exactly at the first |k|=1), step-up of the result rebuilds the filter, levinson error = r0*prod(1-k^2); all multisets of 12 root factors (real roots 0,+-1/2,3/4,+-1,+-2 and conjugate pairs inside/on/outside the circle) up to degree 4 x 4 leading coefficients x 2 numerators for parcor_stable, whose answer is known by construction. The same denominators with plain Fraction coefficients, and non-critical pole sets with plain int/float coefficients under 469 gains (ints 1..128, k/10), where the verdict must neither change nor raise.",
   "Degree <= 4; exact rational coefficients."),
  "C17": (True, "E3", "model_checking", E3,
   "The real lazy_io is loaded as a private module copy with threading replaced by a virtual module and pyaudio/_portaudio by a strict recording fake; every main program over {play, pause, resume, stop, close} (1 player with <=3 control operations at deviation bound 2, 2 players with <=1 at bound 1; thorough: 1 player <=4 ops bound 3, 2 players <=2 ops bound 2, 3 players) x wait x with-block/explicit close is executed under ALL schedules within the bound (pre-emptions of an enabled thread, or not yielding at a device write), executions run to completion; each execution is checked for deadlock/livelock, device bytes = prefix of iterable+padding in whole chunks (complete when wait and never stopped), device call protocol, exactly one close per stream, one terminate after them, no live thread, play refused, second close a no-op.",
   "GIL-atomic attribute access; scheduling points = virtual threading ops, backend calls, lines touching attributes assigned/mutated outside __init__ (AST scan); fake backend semantics; deviation bound."),
  "C18": (True, "E1", "exploration", E1,
-  "WAV: files written with the stdlib wave module holding all 256 8-bit values, all 65536 16-bit values, and for 24/32 bit every sample whose bytes are drawn from {00,01,7f,80,fe,ff} (thorough adds 55,aa,10) plus +-2^k, +-2^k+-1, read back through the real WavStream (mono/stereo, keep on/off, by name and by file object, frame counts 0..5) and compared with int.from_bytes arithmetic (independent of struct); header mirrored; file closed exactly at exhaustion. chunks: both strategies x lengths 0..9 (13) x sizes {1,2,3,4,6,default,200,300} x formats b,h,i,f,d x byte orders {None,<,>,=,!} x value rotations incl. the extremes of each width, checked by unpacking the concatenated output and by comparing the two strategies byte for byte.",
+  "WAV: files written with the stdlib wave module holding all 256 8-bit values, all 65536 16-bit values, and for 24/32 bit every sample whose bytes are drawn from {00,01,7f,80,fe,ff} (thorough adds 55,aa,10) plus +-2^k, +-2^k+-1, read back through the real WavStream (mono/stereo, keep on/off, by name and by file object, frame counts 0..5) and compared with int.from_bytes arithmetic (independent of struct); header mirrored; file closed exactly at exhaustion. chunks: both strategies x lengths 0..9 (13) x sizes {1,2,3,4,6,default,200,300} x formats b,h,i,f,d x byte orders {None,<,>,=,!} x value rotations incl. the extremes of each width, checked by unpacking the concatenated output and by comparing the two strategies byte for byte. For a file given by name the operating-system descriptor must be closed once the stream is exhausted (/proc/self/fd); long files cross the read-batch boundary; a path is rewritten and re-read inside one case.",
   "Value alphabets for 24/32 bit; type-appropriate values and pad values."),
  "C19": (True, "E1", "exploration", E1 + "; exact rational parameters, symbolic samples for the resampler",
-  "Every generator over its parameter alphabet in exact Q arithmetic: line (8 durations x 5x5 values x finish), ones/zeros/impulse/fades (12 durations incl. None/inf), adsr/attack (constant and stream sustain), noise with an owned random source, modulo_counter over 4 starts x 3 moduli x 9 steps (negative, zero, multiples of the modulo, both internal paths) x all 8 numbers-vs-streams combinations x constant/varying streams and the end-with-shortest-stream rule, TableLookup oscillator/getitem/operators/harmonize/normalize, sinusoid (tolerance for sin only), karplus_strong vs the linearised comb, resample on symbolic inputs of length 0..10 (14) x 7 ratios x orders 0..3 x constant/stream ratios against window-placement + Lagrange basis written from the statement.",
+  "Every generator over its parameter alphabet in exact Q arithmetic: line (8 durations x 5x5 values x finish), ones/zeros/impulse/fades (12 durations incl. None/inf), adsr/attack (constant and stream sustain), noise with an owned random source, modulo_counter over 4 starts x 3 moduli x 9 steps (negative, zero, multiples of the modulo, both internal paths) x all 8 numbers-vs-streams combinations x constant/varying streams and the end-with-shortest-stream rule, TableLookup oscillator/getitem/operators/harmonize/normalize, sinusoid (tolerance for sin only), karplus_strong vs the linearised comb, resample on symbolic inputs of length 0..10 (14) x 7 ratios x orders 0..3 x constant/stream ratios against window-placement + Lagrange basis written from the statement. A float kind of modulo_counter (starts a rounding error below zero, negative modulo, all 8 argument-kind paths) demands the range [0, modulo) and agreement of the paths; resample inputs are handed over as every container kind.",
   "Parameter alphabets; modulo streams constant; closed forms excluded where they divide by zero."),
  "C20": (True, "E1", "exploration", E1 + "; symbolic samples for the linear tools",
-  "Moving averages (deque, recursive/feedback, fir) x sizes 1..8 x five zero kinds x lengths on symbolic input against the windowed mean (exact for power-of-two sizes, 4 ulp per coefficient otherwise), one filter object applied to two signals consumed in interleaved orders, all accumulate strategies on symbolic input incl. the empty input; amdf and the three envelope strategies on all sequences of length <=5 (6) over {-2,-1,0,1/2,1,3}; clip (all 16 limit pairs, idempotence, inverted limits), zcross (3 hysteresis x 6 first_sign values against a reference sign automaton) and unwrap (5 (max_delta, step) pairs: multiples of step, untouched when no jump, bounded adjacent jumps) on all sequences of length <=6 (7).",
+  "Moving averages (deque, recursive/feedback, fir) x sizes 1..8 x five zero kinds x lengths on symbolic input against the windowed mean (exact for power-of-two sizes, 4 ulp per coefficient otherwise), one filter object applied to two signals consumed in interleaved orders, all accumulate strategies on symbolic input incl. the empty input; amdf and the three envelope strategies on all sequences of length <=5 (6) over {-2,-1,0,1/2,1,3}; clip (all 16 limit pairs, idempotence, inverted limits), zcross (3 hysteresis x 6 first_sign values against a reference sign automaton) and unwrap (5 (max_delta, step) pairs: multiples of step, untouched when no jump, bounded adjacent jumps) on all sequences of length <=6 (7). Every tool configuration is also fed the same samples as tuple, Stream, one-shot iterator, generator, re-iterable object and Stream of an iterator and must give the list's answer.",
   "Sample alphabet for the non-linear tools; float 1./size rounding bounded, not exact, for non-power-of-two sizes."),
  "C14": (True, "E1", "exploration", E1 + "; float comparison under bounds derived from argument rounding",
-  "Every strategy name and alias of window and wsymm (iterated from the dictionaries) x every size 1..512 (thorough 2048) x alpha grids for blackman and cos, each size asked for several alphas in sequence and twice in the same process: length, exact equality of window.X(size) with wsymm.X(size+1)[:size], symmetry, wsymm.X(1) == [1.0], range, documented closed form typed independently (64 ulp), independence of returned lists; hop-shifted sums for hann/hamming/bartlett/rect(+aliases) at size/2 and hann/hamming/blackman at size/4 for every admissible size; alias table and periodic/symm cross references.",
+  "Every strategy name and alias of window and wsymm (iterated from the dictionaries) x every size 1..512 (thorough 2048) x alpha grids for blackman and cos, each size asked for several alphas in sequence and twice in the same process: length, exact equality of window.X(size) with wsymm.X(size+1)[:size], symmetry, wsymm.X(1) == [1.0], range, documented closed form typed independently (64 ulp), independence of returned lists; hop-shifted sums for hann/hamming/bartlett/rect(+aliases) at size/2 and hann/hamming/blackman at size/4 for every admissible size; alias table and periodic/symm cross references. Returned lists (periodic and symmetric) are modified in place and the same and other strategies asked again: nothing may be shared.",
   "Grid of alphas (cos alpha >= 1); tolerances 64/256 ulp derived from the rounding of the cosine arguments."),
  "C01": (True, "E1", "exploration", E1,
   "All 35 operator methods of the table (read from OpMethod, checked to be installed on Stream) x route (dunder call / Python syntax) x other-operand kind (Stream, list, tuple, generator, scalar, periodic Stream, constant Stream) x length pairs {0..3}^2 x element types (int, bool, float, complex, Fraction, 2x2 matrix for @) against an independent interpreter that also predicts where and with which exception type an element-level error surfaces; 131k expression trees of depth <=2 (thorough ~1.6M incl. binary combinations of depth-1 trees) over int leaves; every function of lazy_math/lazy_midi x 12 container kinds x positional/keyword route (scalar -> scalar equal to the plain math value, container kind preserved, lazy kinds give a generator that reads nothing before being consumed and one item per output), secondary parameters and the elementwise decorator itself.",
@@ -65,10 +65,10 @@ CHECKS = {
   "A catalogue of ~120 processing stages (Stream operators and methods, thub/tee, every classified name of lazy_itertools, constant and time-varying filters, cascade/parallel, designed filters with stream parameters, blocks/zero_pad/chunks, moving averages, envelopes, amdf, clip, zcross, unwrap, Streamix, modulo_counter/TableLookup with stream arguments, resample x 4 ratios x 4 orders, overlap_add.list with declared and detected size, the STFT wrapper) each with the source allowance the statement grants for k outputs, run on counting sources over an endless sequence with a tripwire one item beyond the allowance: zero reads at construction, pull counts after each of k = 1..8 (24) outputs, no read-ahead when a limit(n) downstream is drained or a finite stage ends; all 2-stage (thorough 3-stage) compositions of composable stages with composed allowances.",
   "K bound; filter memory is not a source; eager itertools (product, permutations, combinations) excluded by definition."),
  "C12": (True, "E1", "exploration", E1 + " on an explicit frequency grid with derived rounding bounds",
-  "80 (thorough 143) filters x float and exact coefficient types x {0, pi, k*pi/8} + a 64 (1024) point grid: the library's float freq_response vs numerator/denominator evaluated in exact rational complex arithmetic at the same dyadic z0 = exp(-jw), under a bound derived from the evaluation scheme (ill-conditioned points skipped and counted), nan exactly where the denominator vanishes, container kinds mapped element by element; cascades (product) and parallel banks (sum) of 1..3 filters incl. branches sharing a denominator; unnormalised DFT of a FIR impulse response = freq_response, complex exponential through a FIR filter scaled by freq_response once the memory is full; dft = defining sum for single and multi-frequency calls in several orders, linearity, DC bin = mean.",
+  "80 (thorough 143) filters x float and exact coefficient types x {0, pi, k*pi/8} + a 64 (1024) point grid: the library's float freq_response vs numerator/denominator evaluated in exact rational complex arithmetic at the same dyadic z0 = exp(-jw), under a bound derived from the evaluation scheme (ill-conditioned points skipped and counted), nan exactly where the denominator vanishes, container kinds mapped element by element; cascades (product) and parallel banks (sum) of 1..3 filters incl. branches sharing a denominator; unnormalised DFT of a FIR impulse response = freq_response, complex exponential through a FIR filter scaled by freq_response once the memory is full; dft = defining sum for single and multi-frequency calls in several orders, linearity, DC bin = mean. Banks and banks nested in banks are asked over list, tuple, Stream, generator and endless Stream frequency containers and must give the scalar result per element; banks changed in place after use respond as their current members.",
   "Grid-exhaustive only (nothing between grid points); bound constants stated in the evidence."),
  "C13": (True, "E1", "exploration", E1 + " on explicit parameter grids, coefficients evaluated exactly",
-  "Every strategy and alias (iterated from the StrategyDicts) of lowpass/highpass x 256 (4096) cut-offs in [1e-3, pi-1e-3]: unit gain at DC/Nyquist, pole strictly inside, half power at the cut-off and monotone magnitude for the pole/z designs; resonators x 96 (512) frequencies x 16 (64) bandwidths: a2 = e^-bw, unit gain at the resonant frequency (analytic peak for the freq_* strategies, vacuous cases counted), maximum there; combs x delays x alphas/taus by exact impulse-train response; gammatone strategies x 48x8 (256x32): every section stable (Jury), unit cascade gain at the centre frequency; stream-valued parameters for every design: coefficients equal the constant designs' sample by sample. Gains are computed exactly from the returned float coefficients; tolerances = 64u x conditioning (derived).",
+  "Every strategy and alias (iterated from the StrategyDicts) of lowpass/highpass x 256 (4096) cut-offs in [1e-3, pi-1e-3]: unit gain at DC/Nyquist, pole strictly inside, half power at the cut-off and monotone magnitude for the pole/z designs; resonators x 96 (512) frequencies x 16 (64) bandwidths: a2 = e^-bw, unit gain at the resonant frequency (analytic peak for the freq_* strategies, vacuous cases counted), maximum there; combs x delays x alphas/taus by exact impulse-train response; gammatone strategies x 48x8 (256x32): every section stable (Jury), unit cascade gain at the centre frequency; stream-valued parameters for every design: coefficients equal the constant designs' sample by sample. Gains are computed exactly from the returned float coefficients; tolerances = 64u x conditioning (derived). Parameters are also handed over as list, tuple, iterator and generator: a kind the design rejects with TypeError is counted as unsupported, an accepted one must give the Stream design.",
   "Grid-exhaustive only; tolerances scaled by conditioning as stated in the evidence."),
 }
 
